@@ -3,6 +3,8 @@
 // it is a no-op.
 package simyield
 
+import "runtime"
+
 // Hook is installed by the linsim scheduler.
 var Hook func(site string)
 
@@ -10,5 +12,21 @@ var Hook func(site string)
 func Point(site string) {
 	if h := Hook; h != nil {
 		h(site)
+	}
+}
+
+// Blocked is the site reported by a client that could not take a lock.
+const Blocked = "!blocked"
+
+// Acquire replaces X.Lock() / X.RLock() in instrumented code (try = X.TryLock / X.TryRLock):
+// a client that cannot take the lock hands control back to the scheduler, marked as blocked,
+// instead of blocking the one thread of control the cooperative scheduler has.
+func Acquire(try func() bool) {
+	for !try() {
+		if h := Hook; h != nil {
+			h(Blocked)
+		} else {
+			runtime.Gosched()
+		}
 	}
 }
